@@ -26,3 +26,4 @@ uint64_t w_gget_raw(uint64_t nulltable, uint64_t numFields, uint8_t* pdu, uint64
 void     w_gset_raw(uint64_t nulltable, uint64_t numFields, uint8_t* pdu, uint64_t field, uint64_t v);
 uint64_t w_bo(uint64_t helper, uint64_t x, uint8_t* image);
 uint64_t w_world_id(void);
+uint64_t w_world_model(void);
